@@ -171,6 +171,8 @@ impl Answers {
         let guard = self.current_token.lock();
         let mut token = self.condvar.wait_while(guard, |t| *t != Some(token));
         *token = None;
+        // Wake up the hot-reloading thread if it is waiting for the slot to be empty
+        self.condvar.notify_all();
     }
 }
 
